@@ -301,15 +301,17 @@ PROPS["C15"] = dict(
                "n up to 2^25 the value picked is the one at the nearest-rank index max(0, ceil(p n/100) - 1), which is 0 for p = 0, n-1 for p = 100 and monotone in p "
                "(so 101 non-decreasing values of a sorted vector); and that the cached answer is returned while the tip of the served chain is unchanged, kept when no "
                "fee-paying transaction exists, and otherwise recomputed and stored under the new tip",
-    level_note="PARTIAL: which fee rates are collected (get_fees_per_byte: most recent 10,000 non-coinbase transactions of the served chain, cached per block at "
-               "insertion or recomputed through a Cow/filter_map fallback) and the sort/map/collect of percentiles are assumed as uninterpreted functions; "
-               "equality of cached and recomputed rates after an upgrade is not decided",
+    level_note="get_fees_per_byte is verified on its real loops against 'the rates of the served chain's blocks, most recent block first, cut after n' (Cow eliminated "
+               "by rule R12); the fee rate of one transaction is verified for BOTH paths against one spec function tx_rate_spec(tx, input sum): the post-upgrade "
+               "recomputation get_tx_fee_per_byte (whole function) and the insertion-time statement of insert_outpoints (slice) — so recomputed and cached rates agree "
+               "whenever the input sums agree. PARTIAL: the fallback pipeline that maps get_tx_fee_per_byte over a block's transactions (filter_map/collect), the "
+               "input-sum bookkeeping of insert_outpoints (entry-API maps) and the sort/map/collect of percentiles are assumed as uninterpreted functions",
     explanation="the closure bodies of `percentiles` are lifted as R8 slices (ceil_div, the per-percentile pick, the constant 100).",
     unverified_links=[
-        "fee_percentiles.rs::get_fees_per_byte and get_tx_fee_per_byte; outpoints_cache.rs insert_outpoints computing per-block fee rates",
+        "fee_percentiles.rs:110-116 the fallback `txdata().iter().filter_map(get_tx_fee_per_byte).collect()`; outpoints_cache.rs insert_outpoints: how input_sum is accumulated (cache / same-block / UTXO-set lookups)",
         "percentiles(): sort_unstable + (0..=100).map(closure).collect() glue around the verified slices; empty input => empty output (by inspection)",
     ],
-    assumptions=COMMON_ASSUMPTIONS + ["fee < 2^64/1000 satoshi; at most 2^25 fee rates"],
+    assumptions=COMMON_ASSUMPTIONS + ["fee < 2^64/1000 satoshi; the inputs of one transaction sum to < 2^64/1000 satoshi; at most 2^25 fee rates"],
 )
 
 PROPS["C01"] = dict(
